@@ -56,14 +56,16 @@ pub struct HideCase {
 
 impl HideCase {
     pub fn key(&self) -> Vec<u8> {
-        format!("{:?}|{:?}|{:?}|{:?}|{:?}", self.a, self.secret, self.rv, self.lp, self.ap).into_bytes()
+        let lph = crate::monitor::hll::hash_bytes(11, &self.lp);
+        format!("{:?}|{:?}|{:?}|{}:{:x}|{:?}", self.a, self.secret, self.rv, self.lp.len(), lph, self.ap).into_bytes()
     }
     pub fn witness(&self) -> J {
         J::obj(vec![
             ("avp", J::s(format!("{:?}", self.a))),
             ("secret_hex", J::hex(&self.secret)),
             ("random_vector_hex", J::hex(&self.rv)),
-            ("length_padding_hex", J::hex(&self.lp)),
+            ("length_padding_octets", J::U(self.lp.len() as u64)),
+            ("length_padding_hex", J::hex(&self.lp[..self.lp.len().min(1100)])),
             ("alignment_padding_hex", J::hex(&self.ap)),
         ])
     }
